@@ -25,21 +25,21 @@ theorem noChoiceTop_of_dataLevel (S : Schema) (ks : List STree) (h : DataLevel S
 
 mutual
 /-- every inner data node is an instance of a container or a list (what the parsers and `lyd_new_*` build) -/
-def shapedN (S : Schema) : DNode → Bool
-  | .inner s _ _ ks => (S.isKind s .container || S.isKind s .list) && shapedL S ks
+def cShapedN (S : Schema) : DNode → Bool
+  | .inner s _ _ ks => (S.isKind s .container || S.isKind s .list) && cShapedL S ks
   | .term .. => true
-def shapedL (S : Schema) : List DNode → Bool
+def cShapedL (S : Schema) : List DNode → Bool
   | [] => true
-  | n :: ns => shapedN S n && shapedL S ns
+  | n :: ns => cShapedN S n && cShapedL S ns
 end
 
-theorem shapedL_mem (S : Schema) : ∀ (l : List DNode), shapedL S l = true → ∀ n ∈ l, shapedN S n = true
+theorem cShapedL_mem (S : Schema) : ∀ (l : List DNode), cShapedL S l = true → ∀ n ∈ l, cShapedN S n = true
   | [], _, n, hn => by cases hn
   | x :: xs, h, n, hn => by
-    rw [shapedL, Bool.and_eq_true] at h
+    rw [cShapedL, Bool.and_eq_true] at h
     rcases List.mem_cons.1 hn with rfl | hn
     · exact h.1
-    · exact shapedL_mem S xs h.2 n hn
+    · exact cShapedL_mem S xs h.2 n hn
 
 theorem sheightL_zero : ∀ (ks : List STree), sheightL ks = 0 → ks = []
   | [], _ => rfl
@@ -185,7 +185,7 @@ structure NodeHyp (X : SchemaX) (k : STree) (n : DNode) : Prop where
   sid : n.sid = k.sid
   fresh : freshExplL n.kids = true
   placed : placedN X n = true
-  shaped : shapedN X.base n = true
+  shaped : cShapedN X.base n = true
 
 theorem nodeHyp_created (X : SchemaX) (k : STree) (c : DNode) (hk : X.base.get? k.sid = some k.info) (h1 : c.sid = k.sid)
     (h3 : c.kids = []) (h4 : c.isTerm = false → k.info.kind = .container) : NodeHyp X k c := by
@@ -198,7 +198,7 @@ theorem nodeHyp_created (X : SchemaX) (k : STree) (c : DNode) (hk : X.base.get? 
     refine ⟨h1, rfl, ?_, ?_⟩
     · simp [placedN, placedL]
     · have := h4 rfl
-      simp [shapedN, shapedL, Schema.isKind, Schema.kind?, h1, hk, this]
+      simp [cShapedN, cShapedL, Schema.isKind, Schema.kind?, h1, hk, this]
 
 /-- **the subtree walk on fresh data of a choice-free schema completes every node the way RFC 7950 says** -/
 theorem subtreeNode_rfc (X : SchemaX) (o : VOpts) (hno : o.noState = false) (hD : DataSchema X) :
@@ -223,7 +223,7 @@ theorem subtreeNode_rfc (X : SchemaX) (o : VOpts) (hno : o.noState = false) (hD 
     have hs : s = k.sid := hn.sid
     have hfresh : freshExplL kids = true := hn.fresh
     obtain ⟨hlev, hkids⟩ := freshLevel_of kids hfresh
-    obtain ⟨n1, _⟩ := validateNew_fresh X o (cx.descend X.base before (.inner s f' m kids)) kids hlev
+    obtain ⟨n1, _⟩ := validateNew_freshLevel X o (cx.descend X.base before (.inner s f' m kids)) kids hlev
     have hDk := hD.kids k hk
     have hlook : X.kidsOf (some s) = k.kids := by rw [hs]; exact hD.lookup k hk
     have hget : X.base.get? k.sid = some k.info := hD.info k hk
@@ -236,7 +236,7 @@ theorem subtreeNode_rfc (X : SchemaX) (o : VOpts) (hno : o.noState = false) (hD 
       rw [hlook] at this
       exact this
     have hshaped := hn.shaped
-    simp only [shapedN, Bool.and_eq_true] at hshaped
+    simp only [cShapedN, Bool.and_eq_true] at hshaped
     have hw := walkList_obs_map X.base (subtreeNode X o fuel (cx.descend X.base before (.inner s f' m kids)).keysOld) normNew (deepR X o k.kids)
       (lvl X.base o k.kids kids) [] (by
         intro c hc bf
@@ -244,7 +244,7 @@ theorem subtreeNode_rfc (X : SchemaX) (o : VOpts) (hno : o.noState = false) (hD 
         · obtain ⟨hin, hpl⟩ := (placedL_all X k.kids kids).1 hplaced c hc'
           obtain ⟨k', hk', hsid⟩ := List.any_eq_true.1 hin
           have hsid' : c.sid = k'.sid := by simpa using (beq_iff_eq.1 hsid).symm
-          have hyp : NodeHyp X k' c := ⟨hsid', hkids c hc', hpl, shapedL_mem X.base kids hshaped.2 c hc'⟩
+          have hyp : NodeHyp X k' c := ⟨hsid', hkids c hc', hpl, cShapedL_mem X.base kids hshaped.2 c hc'⟩
           have hfu : sheightL k'.kids ≤ fuel := by
             have a := sheightL_mem hk'
             have b := sheight_kids k'
@@ -276,12 +276,12 @@ open LyModel LyModel.Tree
 
 /-- **the validated tree of fresh data is the RFC completion of the input** (schemas without `choice`, whole trees) -/
 theorem validate_rfc_nochoice (X : SchemaX) (o : VOpts) (t : List DNode) (hno : o.noState = false) (hD : DataSchema X)
-    (hf : freshExplL t = true) (hp : placedL X X.top t = true) (hs : shapedL X.base t = true)
+    (hf : freshExplL t = true) (hp : placedL X X.top t = true) (hs : cShapedL X.base t = true)
     (hh : sheightL X.top ≤ walkFuel X t) (hpe : (o.present && t.isEmpty) = false) :
     obsL X.base (validate X o t).tree = obsL X.base (rfcL X o X.top t) := by
   obtain ⟨htree, _⟩ := validate_evs_eq X o t hpe
   obtain ⟨hlev, hkids⟩ := freshLevel_of t hf
-  obtain ⟨n1, _⟩ := validateNew_fresh X o {} t hlev
+  obtain ⟨n1, _⟩ := validateNew_freshLevel X o {} t hlev
   rw [htree, finalR_obs]
   unfold subtreeKids
   rw [implL_noChoice X o _ X.top _ (noChoiceTop_of_dataLevel X.base X.top hD.top), implNodes_fst, n1,
@@ -292,7 +292,7 @@ theorem validate_rfc_nochoice (X : SchemaX) (o : VOpts) (t : List DNode) (hno : 
     · obtain ⟨hin, hpl⟩ := (placedL_all X X.top t).1 hp c hc'
       obtain ⟨k', hk', hsid⟩ := List.any_eq_true.1 hin
       have hsid' : c.sid = k'.sid := by simpa using (beq_iff_eq.1 hsid).symm
-      have hyp : NodeHyp X k' c := ⟨hsid', hkids c hc', hpl, shapedL_mem X.base t hs c hc'⟩
+      have hyp : NodeHyp X k' c := ⟨hsid', hkids c hc', hpl, cShapedL_mem X.base t hs c hc'⟩
       have hfu : sheightL k'.kids ≤ walkFuel X t := by
         have a := sheightL_mem hk'
         have b := sheight_kids k'
